@@ -249,7 +249,7 @@ def e2e(ctx, rnd):
                     acc = out["reply"]["kind"] == "announce"
                 else:
                     cl.send_text(ws_e2e.announce_msg(h, 1, "started", 1, [], []))
-                    got = ws_e2e.settle([cl], 0.2)
+                    got = ws_e2e.settle([cl], 0.2, sender=cl)
                     fr = [ws_e2e.abstract_frame(m, nm) for nm, m in got]
                     if len(fr) != 1:
                         raise ToolError("expected one frame, got %s" % fr)
@@ -266,7 +266,7 @@ def e2e(ctx, rnd):
                     out = cl.read_reply()
                     return [f[0] for f in out["reply"]["files"] if f[1] + f[2] > 0]
                 cl.send_text(ws_e2e.scrape_msg(asked))
-                got = ws_e2e.settle([cl], 0.2)
+                got = ws_e2e.settle([cl], 0.2, sender=cl)
                 fr = [ws_e2e.abstract_frame(m, nm) for nm, m in got]
                 return [f[0] for f in fr[0]["files"] if f[1] + f[2] > 0] if fr else []
 
